@@ -65,6 +65,20 @@ class SpecCtx(object):
     def p(self):
         return self.it.p
 
+    def requires(self, cond, name):
+        """precondition: assumed when the function itself is verified, an obligation at every call site"""
+        if isinstance(cond, (SBool,)):
+            cond = cond.t
+        if isinstance(cond, bool):
+            cond = z3.BoolVal(cond)
+        if self.mode == 'verify':
+            self.it.p.assume(cond)
+            if not self.it.p.check_feasible_now():
+                raise Infeasible()
+        else:
+            self.it.p.prove('requires:' + name, cond, kind='requires')
+            self.it.p.assume(cond)
+
 
 # ---------------------------------------------------------------- heap snapshot / frame
 def _children(v):
@@ -295,6 +309,9 @@ def compare(it, sp, pre_snap, roots, eff0, outcome, prefix):
     # updates that target objects not in the pre-snapshot (e.g. containers created by the function) are ignored here
     # effects
     got_eff = p.effects[eff0:]
+    flt = getattr(sp, 'effect_filter', None)
+    if flt is not None:
+        got_eff = flt(got_eff)
     exp_eff = sp.effects
     if len(got_eff) != len(exp_eff) and not sp.any_effects_after:
         definite.append('effects: expected %d [%s] got %d [%s]' % (
@@ -369,7 +386,9 @@ def verify(prog, qual, build, spec, light=False, inline=None, name=None, max_pat
         it.inline_only = inline
         it.loop_rule = loop_rule
         try:
-            roots, args, kw = build(it)
+            built = build(it)
+            roots, args, kw = built[0], built[1], built[2]
+            bctx = built[3] if len(built) > 3 else None
             env = it.bind(f, args, kw)
             params = [a.arg for a in f.node.args.posonlyargs + f.node.args.args]
             vals = [env[pn] for pn in params]
@@ -383,6 +402,9 @@ def verify(prog, qual, build, spec, light=False, inline=None, name=None, max_pat
             except PyExc as e:
                 out = Outcome('raise', e.val)
             out.extra['spec'] = sp
+            out.extra['ctx'] = bctx
+            out.extra['args'] = vals
+            out.extra['eff0'] = eff0
             if abstraction is not None:
                 abstraction(it, roots, eff0)
             if sp is not None:
@@ -408,3 +430,59 @@ def verify(prog, qual, build, spec, light=False, inline=None, name=None, max_pat
         if o.path.opaque_ops:
             res.opaque_paths += 1
     return res
+
+
+# ---------------------------------------------------------------- abstract programs over the view
+class Sim(object):
+    """Scratch state for writing a spec as an abstract program: reads see pending writes; the result is
+    a Spec whose updates are the final values of everything written."""
+
+    def __init__(self, c):
+        self.c = c
+        self.it = c.it
+        self.w = {}          # (id(cont), key) -> (cont, key, value)
+        self.effects = []
+        self.havoc = []
+        self.post = []
+        self.ret = None
+        self.exc = None
+
+    def get(self, cont, key):
+        k = (id(cont), key)
+        if k in self.w:
+            return self.w[k][2]
+        return cont.f[key] if isinstance(cont, Obj) else cont[key]
+
+    def set(self, cont, key, val):
+        self.w[(id(cont), key)] = (cont, key, val)
+
+    def dont_care(self, cont, key):
+        self.havoc.append((cont, key))
+
+    def eff(self, *e):
+        self.effects.append(tuple(e))
+
+    def branch(self, cond):
+        if isinstance(cond, bool):
+            return cond
+        return self.c.branch(cond)
+
+    def is_(self, v, const):
+        """v == const (numbers), forking"""
+        if isinstance(v, (SNum, SBool)):
+            return self.c.branch(to_term(v) == const)
+        return v == const
+
+    def in_(self, v, consts):
+        if isinstance(v, (SNum, SBool)):
+            return self.c.branch(z3.Or([to_term(v) == k for k in consts]))
+        return v in consts
+
+    def add(self, a, b):
+        return self.it.m.binop(self.it, 'Add', a, b)
+
+    def spec(self):
+        hav = set((id(cn), k) for cn, k in self.havoc)
+        sp = Spec(updates=[u for kk, u in self.w.items() if kk not in hav], effects=self.effects,
+                  ret=self.ret, exc=self.exc, havoc=self.havoc, post=self.post)
+        return sp
